@@ -76,6 +76,11 @@ func HttpRequest(client *http.Client, req *http.Request, response any) error {
 		return &oidcErr
 	}
 
+	// The callers pass a pointer to a (possibly generic) pointer and use the
+	// result without a nil check; null is not a valid answer of any endpoint.
+	if strings.TrimSpace(string(body)) == "null" {
+		return fmt.Errorf("failed to unmarshal response: unexpected null %s", body)
+	}
 	err = json.Unmarshal(body, response)
 	if err != nil {
 		return fmt.Errorf("failed to unmarshal response: %v %s", err, body)
